@@ -910,8 +910,20 @@ def real_binaries(ctx, rnd, lines, impl, inline_lines, inline_impl):
             continue
         cand.append((l, i, "tf " + " ".join(w)))
     rnd.shuffle(cand)
+    # history dependence: per transform, several calls in ONE process with decreasing, then increasing, argument lengths
+    # (state kept between evaluations — static scratch buffers — shows up only when a long argument precedes a short one)
+    by_name = {}
+    for c in cand:
+        by_name.setdefault(c[2].split(" ")[1], []).append(c)
+    hist_groups = []
+    for name, cs in sorted(by_name.items()):
+        cs = sorted(cs, key=lambda c: -len(c[2]))
+        pick = cs[:3] + cs[len(cs) // 2: len(cs) // 2 + 2] + cs[-3:]
+        seen = set(); pick = [c for c in pick if not (c[2] in seen or seen.add(c[2]))]
+        if len(pick) >= 2:
+            hist_groups.append(pick + pick[::-1][1:])
     cand = cand[:240 if quick else 3000]
-    groups = [cand[k:k + 30] for k in range(0, len(cand), 30)]
+    groups = [cand[k:k + 30] for k in range(0, len(cand), 30)] + hist_groups
 
     scratch = tempfile.mkdtemp(prefix="c14-session-")     # btcdeb writes .btcdeb_history into its working directory
 
